@@ -284,6 +284,20 @@ func (f *Flow) runGeneration(adopt bool) {
 			store = &obsStore{f: f, P: mqtt.FileSystem(fsDir), fs: f.FS}
 		}
 		s.Env = f.env
+		w.Broker.SkipResend = nil
+		if o.LazyResend && o.Generations <= 1 {
+			// what the application was handed and the client has not
+			// acknowledged on the wire is the client's to acknowledge
+			// on the next connection, retransmission or not (C07)
+			w.Broker.SkipResend = func(m *OutMsg) bool {
+				for i := len(f.Recvs) - 1; i >= 0; i-- {
+					if r := f.Recvs[i]; r.Out == m {
+						return !r.Big && r.AckWire == 0 && r.Gen == w.Gen
+					}
+				}
+				return false
+			}
+		}
 		s.StarveP = o.StarveP
 		if o.NoTick {
 			s.tickW = 0
@@ -634,6 +648,20 @@ func init() {
 			o.Net.ReadExpiry = 0
 		}
 	}, "progress_making_expiry", "big_message", "short_read")})
+	// connection loss in the middle of inbound traffic: retransmissions,
+	// suppressed exactly-once duplicates (also larger than the read buffer)
+	// and what follows them on the stream
+	register("C06", Family{Name: "redelivery", Weight: 1, Run: flowFamily(func(f *Flow) {
+		o := &f.O
+		o.Publishers, o.Requesters = 0, 0
+		o.Clean = false
+		o.ReadBuf = []int{64, 16, 32, 256, 1024}[f.W.Tape.Draw("rbuf6r", 5)]
+		o.Inbound = 3 + f.W.Tape.Draw("nin6r", 8)
+		o.InQ = [3]int{1, 1, 4}
+		o.InSizeMix = [4]int{3, 3, 3, 1}
+		o.BreakW = 2 + f.W.Tape.Draw("breakw6r", 3)
+		o.Budget += 4
+	}, "duplicate_suppressed", "big_duplicate_suppressed", "return_matches_stream")})
 	register("C07", Family{Name: "inbound", Weight: 1, Run: flowFamily(func(f *Flow) {
 		f.O.Inbound = 1 + f.W.Tape.Draw("nin7", 10)
 		f.O.InSizeMix = [4]int{6, 1, 1, 1}
@@ -642,6 +670,13 @@ func init() {
 		f.O.PerReq = 3
 		if f.O.ReadBuf == 128*1024 {
 			f.O.ReadBuf = 256
+		}
+		f.O.LazyResend = f.W.Tape.Flip("lazyresend7", 500)
+		if f.O.LazyResend {
+			f.O.Clean = false
+			if f.O.BreakW == 0 {
+				f.O.BreakW = 2
+			}
 		}
 	}, "ack_on_new_connection", "ack_after_ownership")})
 	register("C10", Family{Name: "wedge", Weight: 1, Run: flowFamily(func(f *Flow) {
